@@ -84,7 +84,7 @@ Definition geometric_pmf (p : R) (k : Z) := Rpower (1 - p) (IZR k) * p.
 
 (* negative binomial(r, p) as the file's header comment names it:
    Gamma(r+k)/Gamma(k+1)/Gamma(r) p^k (1-p)^r; support {0,1,...} *)
-Definition negbinomial_valid (r p : R) := 0 < r /\ 0 <= p <= 1.
+Definition negbinomial_valid (r p : R) := 0 < r /\ 0 <= p < 1.
 Definition negbinomial_pmf (r p : R) (k : Z) :=
   Gam (r + IZR k) / (Gam (IZR k + 1) * Gam r) * Rpower p (IZR k) * Rpower (1 - p) r.
 
